@@ -76,15 +76,15 @@ def reg (c : RegCfg) : Machine RegSt RegIn Nat :=
 /-! ### combinational sub-blocks, wired as their constructors do -/
 
 /-- `Nand2`: And2 into a wire as wide as `a`, then Not into `r` -/
-def nand2 (aw rw a b : Nat) : Nat := not1 rw (and2 aw a b)
+def nandS (aw rw a b : Nat) : Nat := not1 rw (and2 aw a b)
 
 /-- `Xor2` (repo ≥ 4cfd4ac): four Nand2; Mid / XOut / YOut are as wide as `r`; each Nand2's own inner wire is as wide as
     its first operand -/
-def xor2 (aw rw a b : Nat) : Nat :=
-  let mid := nand2 aw rw a b
-  let x := nand2 aw rw a mid
-  let y := nand2 aw rw b mid
-  nand2 rw rw x y
+def xorS (aw rw a b : Nat) : Nat :=
+  let mid := nandS aw rw a b
+  let x := nandS aw rw a mid
+  let y := nandS aw rw b mid
+  nandS rw rw x y
 
 /-- `And` on a list of ≥ 2 wires: And2 ladder on wires as wide as `r` -/
 def andLadder (rw : Nat) : List Nat → Nat
@@ -101,7 +101,7 @@ def eqConst (w rw a : Nat) (v : Int) : Nat :=
       if Py.land (Py.shr v i) 1 = 0 then not1 1 (Bits.bit a i) else Bits.bit a i)
 
 /-- `Add(a, b, r)` without carry ports: AddCarryIn with a constant-0 carry wire -/
-def add (rw a b : Nat) : Nat := addc rw a b (const 1 0)
+def addS (rw a b : Nat) : Nat := addc rw a b (const 1 0)
 
 /-! ### TReg (storage.py:121-143): q is 1 bit -/
 structure TRegCfg where
@@ -139,7 +139,7 @@ deriving Repr
 
 def counterClk (w : Nat) (reset inc step : Nat) (s : RegSt) : RegSt :=
   let zeroW := const w 0
-  let addv := add w s.q step
+  let addv := addS w s.q step
   let d1 := mux2 w inc s.q addv
   let d := mux2 w reset d1 zeroW
   let e_add := or2 1 reset inc
@@ -173,7 +173,7 @@ def modClk (w : Nat) (mod : Int) (reset inc : Nat) (s : RegSt) : RegSt :=
   let zeroW := const w 0
   let carry := modCarry w mod s.q
   let anyreset := or2 1 reset carry
-  let addv := add w s.q one
+  let addv := addS w s.q one
   let d1 := mux2 w inc s.q addv
   let d := mux2 w anyreset d1 zeroW
   let e_add := or2 1 reset inc
@@ -283,7 +283,7 @@ def edgeDetector (dir : Dir) : Machine RegSt Nat Nat :=
       match dir with
       | .pos => and2 1 a (not1 1 s.q)
       | .neg => and2 1 (not1 1 a) s.q
-      | .both => xor2 1 1 a s.q }
+      | .both => xorS 1 1 a s.q }
 
 /-! ### ClockDivider (clock.py:23-59): `n = int(freq_in/(2*freq_out))`, `qw = int(log2(freq_in/(2*freq_out)))+1` are
     computed with Python floats in the constructor; the model is parametric in `(n, qw)` (read back from the built
